@@ -124,6 +124,68 @@ impl Prop for ModelProg {
                 ),
                 &text,
             );
+            return;
+        }
+        // a session of several commands on the same machine: TRON typed at the prompt, RUN n into the
+        // middle of the program, GOTO n in direct mode (no CLEAR: variables and open frames stay)
+        if self.id != "C10" && _idx % 3 == 0 {
+            let labels: Vec<usize> = p.lines.iter().map(|l| l.label).collect();
+            let mut cmds: Vec<gen::Cmd> = vec![];
+            if rng.chance(1, 3) {
+                cmds.push(gen::Cmd::Tron);
+            }
+            cmds.push(if rng.coin() { gen::Cmd::Run(None) } else { gen::Cmd::Run(Some(*rng.pick(&labels))) });
+            if rng.coin() {
+                cmds.push(gen::Cmd::Goto(*rng.pick(&labels)));
+            }
+            if rng.chance(1, 3) {
+                cmds.push(gen::Cmd::Troff);
+                cmds.push(gen::Cmd::Run(Some(*rng.pick(&labels))));
+            }
+            let ms = gen::model_session(&p, &cmds, 20_000);
+            let mut s = crate::drive::Session::new();
+            s.drain(16);
+            for l in &lines {
+                s.enter(l);
+                s.drain(16);
+            }
+            let mut used = 0usize;
+            let mut script = text.clone();
+            for (c, m) in cmds.iter().zip(ms.iter()) {
+                if let End::Unspec(why) = m.end {
+                    ctx.count(&format!("session_discarded_unspecified_{}", why));
+                    break;
+                }
+                let ct = c.text(&p);
+                script.push('\n');
+                script.push_str(&ct);
+                mon::journal(&script);
+                let mark = s.mark();
+                s.enter(&ct);
+                let st = crate::drive::drain_with_replies(&mut s, &p.replies, &mut used, 100_000);
+                let got = crate::drive::transcript(s.events_since(mark), crate::drive::Norm::STD);
+                ctx.count("session_commands_compared");
+                ctx.cover("session_command_kinds", ct.split(' ').next().unwrap_or(""));
+                if st == Stop::Budget || got != m.out {
+                    ctx.violation(
+                        "session",
+                        &format!("session:{}:{:?}", ct.split(' ').next().unwrap_or(""), m.end).chars().filter(|c| !c.is_ascii_digit()).collect::<String>(),
+                        &format!(
+                            "after {:?} the implementation and the reference interpreter disagree; {}\nimpl : {:?}\nmodel: {:?}",
+                            ct,
+                            first_diff(&got, &m.out),
+                            got,
+                            m.out
+                        ),
+                        &script,
+                    );
+                    return;
+                }
+                // after an error expression temporaries may be left on the real stack: stop here
+                if matches!(m.end, End::Error(..)) {
+                    break;
+                }
+            }
         }
     }
 }
